@@ -108,6 +108,26 @@ func add[T any](typ, name string, v T, eq func(a, b T) bool, valid func(v T) err
 	return c
 }
 
+// addMsg captures a round message. The library accepts an incoming message in two steps, serde.UnmarshalCBOR[T]
+// and T.Validate(receiver, sender) (network.ValidateIncomingMessages, called by every round): both together are
+// "decoding" here, so a message that unmarshals but fails Validate counts as rejected, and a panic of Validate is a
+// panic of the decoder.
+func addMsg[T any](typ, name string, v T, eq func(a, b T) bool, validate func(T) error) *capture {
+	c := add(typ, name, v, eq, nil)
+	inner := c.dec
+	c.dec = func(b []byte) (any, error) {
+		x, err := inner(b)
+		if err != nil {
+			return nil, err
+		}
+		if err := validate(x.(T)); err != nil {
+			return nil, err
+		}
+		return x, nil
+	}
+	return c
+}
+
 // must is used while producing values by running real code: a failure there is a machinery problem.
 func must[T any](v T, err error) T {
 	if err != nil {
